@@ -118,5 +118,6 @@ Record totals := mkTotals {
   t_dues : list amount;
   t_cats : list cat_total;
   t_taxsum : amount;                (* taxes.sum as presented *)
-  t_taxsum_precise : amount         (* unexported precise sum *)
+  t_taxsum_precise : amount;        (* unexported precise sum *)
+  t_rounding : option amount        (* totals.rounding as presented: the supplied value at the currency's decimals *)
 }.
